@@ -42,8 +42,20 @@ def pred_c16(prog, case, outs, tables):
 def pred_c04(prog, case, outs, tables):
     bad = []
     for j, (op, o) in enumerate(zip(case["ops"], outs)):
+        if o == PANIC:
+            continue
+        if op.get("_steps") is None and op["op"] == "transcode":
+            # malformed / mutated key: whatever it resolves to, the target must hold that node's key
+            want, steps = ref_res(prog, op)
+            if want[0] == "ok" or (want[0] == "err" and want[1] == 1):
+                leaf = want[0] == "ok"
+                rend = SP.render(steps, op["tg"])
+                r = res_kind(o[0])
+                if rend is not None and (r[0] != "ok" or o[0][1] != [len(steps), int(leaf)] or o[1] != rend):
+                    bad.append((j, "key resolves to node %r (leaf=%s); transcode gave %r / %r, expected %r" % ([s_[0] for s_ in steps], leaf, o[0], o[1], rend)))
+            continue
         st = op.get("_steps")
-        if st is None or o == PANIC:
+        if st is None:
             continue
         st = [tuple(x) for x in st]
         if op["op"] == "transcode":
@@ -87,8 +99,29 @@ def _Rrel(r, rt):
     return d <= rtd
 
 
+REFK = {"ok": None, "tooshort": 1, "notfound": 2, "toolong": 3}
+
+
+def ref_res(prog, op):
+    kind, d, steps = SP.ref_traverse(prog.t, op["keys"])
+    return ("ok", d) if kind == "ok" else ("err", REFK[kind], d, 0), steps
+
+
 def pred_c02(prog, case, outs, tables):
     bad = []
+    # the type-level traversal against the documented walk, for every key (valid or malformed)
+    for j, (op, o) in enumerate(zip(case["ops"], outs)):
+        if o == PANIC:
+            continue
+        if op["op"] == "rawtrav" and op.get("fail_at") is None:
+            want, _ = ref_res(prog, op)
+            if res_kind(o[0]) != want:
+                bad.append((j, "traversal reports %r, the documented walk gives %r" % (o[0], want)))
+        if op["op"] in ("ser", "ref", "de", "mut"):
+            want, _ = ref_res(prog, op)
+            r = res_kind(o[0]) if not (op["op"] == "mut" and o[0][0] == 0) else ("ok", None)
+            if not (r[0] == "err" and r[1] == 7) and not _Rrel(r, want):
+                bad.append((j, "%s reports %r, the documented walk of this key gives %r" % (op["op"], o[0], want)))
     groups = collections.defaultdict(dict)
     for j, (op, o) in enumerate(zip(case["ops"], outs)):
         if "_grp" in op and o != PANIC:
@@ -377,6 +410,11 @@ def pred_c12(prog, case, outs, tables):
                 ans = orc.get(str(e[1]), {})
                 cur = ans["replace"] if "replace" in ans else e[2]
                 cur_dep = dep
+            # the depth returned to the caller is what the outermost validator returned, counted up to the root
+            if r[0] == "ok":
+                want = len(st) if cur is None else cur + cur_dep
+                if r[1] != want:
+                    bad.append((j, "deserialize returned depth %d, the validators along the path make it %d" % (r[1], want)))
     return bad
 
 
